@@ -336,6 +336,60 @@ Theorem C02_wait_refines_blocking_put_any_order :
 Proof. exact @wait_refines_blocking_put_any_order. Qed.
 Print Assumptions C02_wait_refines_blocking_put_any_order.
 
+Theorem C02_one_process_write_is_blocking_puts :
+  forall (sr : list areq -> list areq) (ss : list seg -> list seg) 
+           (st : nbstate) (n : Z) (ids : list Z) (hs : bool) (stat0 : list Z) 
+           (f : disk),
+         sorter_ok a_start sr ->
+         sorter_ok s_off ss ->
+         nb_inv st ->
+         ex_err (extract_reqs st n ids hs stat0) = NC_NOERR ->
+         NoDup
+           (map fst
+              (flat_map lead_pairs (flagged (put_lead (ex_st (extract_reqs st n ids hs stat0)))))) ->
+         disk_eq
+           (mpi_write f (st_mem st)
+              (aggregate sr ss (put_lead (ex_st (extract_reqs st n ids hs stat0)))
+                 (ex_put (extract_reqs st n ids hs stat0))))
+           (fold_left (fun (f0 : disk) (l : lead) => blocking_put f0 (st_mem st) l)
+              (flagged (put_lead (ex_st (extract_reqs st n ids hs stat0)))) f).
+Proof. exact @rank_put_correct. Qed.
+Print Assumptions C02_one_process_write_is_blocking_puts.
+
+(* collective wait of any number of processes, any arguments per process (processes applied in rank order) *)
+Theorem C02_wait_all_refines_blocking_put :
+  forall (sr : list areq -> list areq) (ss : list seg -> list seg)
+           (sa : list (nbstate * waitargs)) (file : disk),
+         sorter_ok a_start sr ->
+         sorter_ok s_off ss ->
+         Forall (fun p : nbstate * waitargs => nb_inv (fst p)) sa ->
+         Forall
+           (fun p : nbstate * waitargs =>
+            ex_err
+              (extract_reqs (fst p) (wa_n (snd p)) (wa_ids (snd p)) (wa_has_stat (snd p))
+                 (wa_stat0 (snd p))) = NC_NOERR) sa ->
+         Forall
+           (fun p : nbstate * waitargs =>
+            NoDup
+              (map fst
+                 (flat_map lead_pairs
+                    (flagged
+                       (put_lead
+                          (ex_st
+                             (extract_reqs (fst p) (wa_n (snd p)) (wa_ids (snd p))
+                                (wa_has_stat (snd p)) (wa_stat0 (snd p))))))))) sa ->
+         disk_eq (snd (wait_coll sr ss (map fst sa) (map snd sa) file))
+           (fold_left
+              (fun (f : disk) (p : nbstate * waitargs) =>
+               fold_left (fun (f0 : disk) (l : lead) => blocking_put f0 (st_mem (fst p)) l)
+                 (flagged
+                    (put_lead
+                       (ex_st
+                          (extract_reqs (fst p) (wa_n (snd p)) (wa_ids (snd p)) 
+                             (wa_has_stat (snd p)) (wa_stat0 (snd p)))))) f) sa file).
+Proof. exact @wait_coll_refines_blocking_put. Qed.
+Print Assumptions C02_wait_all_refines_blocking_put.
+
 (* F2 witness: two gets of the same two elements completed by one wait: the second buffer is never filled *)
 Theorem C02_wait_refines_blocking_get_refuted :
   ~ wait_refines_blocking_get_full.
